@@ -352,7 +352,28 @@ def lemmas(tier, seed):
     from pyvc.source import SourceIndex
     idx = SourceIndex()
     idx.load_all()
-    return [VF.ownership_lemma(idx)]
+    out = [VF.ownership_lemma(idx)]
+    # string lemma used by visitor.get_base_property.table: the decomposition of a string at its last dot is unique
+    import subprocess, tempfile, os
+    x, a, b = z3.String("x"), z3.String("a"), z3.String("b")
+    ok = True
+    for c_ in ("setter", "deleter"):
+        s_ = z3.Solver()
+        p = z3.Concat(x, z3.StringVal("." + c_))
+        s_.add(p == z3.Concat(a, z3.StringVal("."), b), z3.Not(z3.Contains(b, z3.StringVal("."))), z3.Not(z3.And(a == x, b == z3.StringVal(c_))))
+        with tempfile.NamedTemporaryFile("w", suffix=".smt2", delete=False) as f:
+            f.write(s_.to_smt2())
+            fn = f.name
+        try:
+            r = subprocess.run(["/usr/bin/cvc5", "--strings-exp", "--tlimit=60000", fn], capture_output=True, text=True, timeout=70)
+            ok = ok and r.stdout.strip().splitlines()[:1] == ["unsat"]
+        except subprocess.TimeoutExpired:
+            ok = False
+        finally:
+            os.unlink(fn)
+    out.append({"name": "rsplit_is_unique", "ok": ok, "on_fail": "undecided",
+                "detail": "x + '.setter' == a + '.' + b with a dot-free b implies a == x and b == 'setter' (same for 'deleter'); discharged by cvc5 --strings-exp"})
+    return out
 
 
 def bounded_checks(tier, seed):
@@ -505,6 +526,15 @@ def c_get_base_property(P):
             raise PyExc(P_.mk_exc("KeyError", "no such member"))
         return member
     P.opaque_hooks["_griffe.mixins:GetMembersMixin.get_member"] = get_member
+    # uniqueness of the split at the last dot (a fact of the theory of strings, discharged once by lemma `rsplit_is_unique`): a string that is
+    # <x>.<c> with a dot-free c splits into exactly x and c
+    HEAD, TAIL = models.ufn("rsplit1_2e_head", StrS, StrS), models.ufn("rsplit1_2e_tail", StrS, StrS)
+    for p_ in paths:
+        for c_ in ("setter", "deleter"):
+            P.assume(z3.Implies(p_.z == z3.Concat(fpath.z, z3.StringVal("." + c_)),
+                                z3.And(HEAD(p_.z) == fpath.z, TAIL(p_.z) == z3.StringVal(c_), z3.Contains(p_.z, z3.StringVal(".")))))
+            P.assume(z3.Implies(z3.And(HEAD(p_.z) == fpath.z, TAIL(p_.z) == z3.StringVal(c_), z3.Contains(p_.z, z3.StringVal("."))),
+                                p_.z == z3.Concat(fpath.z, z3.StringVal("." + c_))))
     kind, res = outcome(P, lambda: call(P, VS + "get_base_property", v, decs, fn))
     acc = [z3.Or(p.z == z3.Concat(fpath.z, z3.StringVal(".setter")), p.z == z3.Concat(fpath.z, z3.StringVal(".deleter"))) for p in paths]
     P.expects["clause"] = "handle_function"
